@@ -79,7 +79,7 @@ def Arith.onInt : Arith → Int → Int → R
   | .quotient, x, y => if y = 0 then raise else .ok (.int (wrap64 (Int.tdiv x y)))
 
 /-- float operation. Documented: "If an attempt is made to divide by zero an error will be raised";
-the code (`dev.divZeroInf`) returns ±Inf/NaN for a float division by zero. -/
+with `dev.divZeroInf` (the code before e5d206a) a float division by zero returns ±Inf/NaN. -/
 def Arith.onFlt (dev : Dev) : Arith → Flt → Flt → R
   | .dif, x, y => .ok (.flt (Flt.sub x y))
   | .product, x, y => .ok (.flt (Flt.mul x y))
@@ -105,7 +105,7 @@ def mod : List Val → R
 /-! ## comparison -/
 
 /-- a number as a float for comparison: exactly (documented), or rounded to float64 first
-(`dev.cmpFloat`, the code: integers above 2^53 lose their low bits) -/
+(`dev.cmpFloat`, the code as it is: integers above 2^53 lose their low bits) -/
 def numOf (dev : Dev) (v : Val) : Option Flt := asFloat (!dev.cmpFloat) v
 
 def numChain (dev : Dev) (op : CmpOp) (x : Flt) : List Val → R
